@@ -764,6 +764,61 @@ def socket_lifecycle_cases(ctx, hook):
     return n
 
 
+def silent_member_cases(ctx, hook):
+    """Non-blocking calls on a MultiPort / PortServer whose ONLY member is open and silent (and with 2 and 3
+    silent members): poll() and iter_pending() come back at once with nothing; a blocking receive() returns
+    within two pauses of a message arriving at the member."""
+    import time
+    from mido.sockets import PortServer, connect
+    n = 0
+    for nmembers in (1, 2, 3):
+        case = {'kind': 'silent-members', 'members': nmembers, 'port': 'MultiPort'}
+        members = [EchoPort(f's{i}') for i in range(nmembers)]
+        mp = MultiPort(members)
+        try:
+            hook.arm({}, None, None, limit=20)
+            r = (mp.poll(), list(mp.iter_pending()), mp.receive(block=False))
+            ctx.check('non-blocking call never waits', r == (None, [], None) and hook.n == 0, 'multi:silent-member-waited', case,
+                      {'results': repr(r), 'sleeps': hook.n})
+            hook.arm({2: 'arrive'}, lambda: members[-1].send(dev_msg(5)), None, limit=20)
+            m = mp.receive()
+            ctx.check('blocking call bounded sleeps', tag_of(m) == ('d', 5) and hook.n <= 4, 'multi:silent-member-receive', case,
+                      {'sleeps': hook.n})
+        except HarnessAbort as exc:
+            ctx.check('non-blocking call never waits', False, 'multi:silent-member-blocked', case, str(exc))
+        n += 1
+        # the same through a server and sockets
+        case = {'kind': 'silent-members', 'members': nmembers, 'port': 'PortServer'}
+        server, clients = None, []
+        try:
+            server = PortServer('127.0.0.1', 0)
+            for i in range(nmembers):
+                clients.append(connect('127.0.0.1', server._socket.getsockname()[1]))
+                for _ in range(300):
+                    hook.arm({}, None, None, limit=20)
+                    server.poll()
+                    if len(server.ports) > i:
+                        break
+                    time.sleep(0.003)
+            hook.arm({}, None, None, limit=20)
+            r = (server.poll(), list(server.iter_pending()))
+            ctx.check('non-blocking call never waits', r == (None, []) and hook.n == 0 and len(server.ports) == nmembers,
+                      'server:silent-client-waited', case, {'results': repr(r), 'sleeps': hook.n, 'connections': len(server.ports)})
+        except HarnessAbort as exc:
+            ctx.check('non-blocking call never waits', False, 'server:silent-client-blocked', case, str(exc))
+        except Exception as exc:
+            ctx.fail('results == lifecycle model', f'silent-members:{type(exc).__name__}', case, repr(exc))
+        finally:
+            for p_ in clients + [server]:
+                try:
+                    if p_ is not None:
+                        p_.close()
+                except Exception:
+                    pass
+        n += 1
+    return n
+
+
 def portserver_close_cases(ctx, hook):
     """close() on a PortServer that has accepted 0..5 clients through its own polling: every message
     taken in is handed out, every server-side connection is released exactly once (the clients see the
@@ -1384,6 +1439,10 @@ def run(ctx):
             ctx.nontrivial(None, k)
             ctx.extra('echo_blocking_cases', k)
             n += k
+        if ctx.shard == 6 % ctx.nshards:
+            k = silent_member_cases(ctx, hook)
+            ctx.nontrivial(None, k)
+            n += k
         if ctx.shard == 3 % ctx.nshards:
             k = portserver_close_cases(ctx, hook)
             ctx.nontrivial(None, k)
@@ -1423,6 +1482,8 @@ def replay(ctx, case):
             echo_blocking_cases(ctx, hook)
         elif k == 'portserver-close':
             portserver_close_cases(ctx, hook)
+        elif k == 'silent-members':
+            silent_member_cases(ctx, hook)
         elif k == 'wild-clock':
             wild_clock_cases(ctx, orig)
         elif k == 'socket-two-threads':
